@@ -370,7 +370,7 @@ func (c *Ctx) addp(rule, fn, construct, pos string, st Status, detail string) *O
 		if row, ok := c.table[key]; ok && row.Verdict == "exempt" {
 			row.used = true
 			if os.Getenv("ZY_ANCHOR_PROBE") != "" && row.Anchor == "" && c.Prog != nil {
-				for _, a := range []string{"lenguard", "peek", "madewith", "sortmethod", "nonempty"} {
+				for _, a := range []string{"lenguard", "peek", "madewith", "sortmethod", "nonempty", "aftercall:SexpArraySelector.RHS"} {
 					probe := *row
 					probe.Anchor = a
 					if ok, why := c.anchorHolds(&probe, o, c.posTok); ok {
